@@ -163,6 +163,13 @@ build for C05); they are what `vp run` was used for.
 * C17: a generated configured method with two overloads of identical
   parameters but different block_parameters; overload choice is C07-C09's
   subject, such methods are skipped.
+* C09 (thorough tier): with overloads `m(Float, Symbol, *Integer)` and
+  `m(Float, Symbol|Untyped)` and an argument of type `Symbol|Float`, ti takes
+  the first declaration (a union argument is accepted when one of its classes
+  fits), the model took the second (all classes fit). The statement does not
+  say which declaration answers: the return type is grey when an earlier
+  declaration accepts part of a union argument. (The call itself stays
+  certain-ok for C08.)
 * C15/C23/C16: generator mistakes found on first runs (top-level locals used
   inside `def`, skipped default positionals shifting later arguments, a module
   both included and extended making a name both an instance and a class
@@ -170,7 +177,7 @@ build for C05); they are what `vp run` was used for.
 
 ### 11.6 Defects of ruby-ti found by the checks
 
-71 were repaired, each by one unguarded `fix:` commit in `/repo` (gate: `go
+"""+str(len(fixed))+""" were repaired, each by one unguarded `fix:` commit in `/repo` (gate: `go
 build ./...`, the official baseline with the tag off, and all 585 golden
 programs with `ti` built); they are recorded as `fixed:` lines in
 `KNOWN_FINDINGS.txt` and suppress nothing. By property that exposed them:
